@@ -39,6 +39,10 @@ CLAIMED = {
         technique="MIR sibling agreement between query and execute arms (same pricing callee, same operand origins), reserve-writer argument flow, limit-comparison table on success/reject paths, cross-contract limit forwarding",
         note="Decided: R17.1 InputAmount/OutputAmount and SwapInput/SwapOutput call the same pricing function on (msg.direction, msg amount, State reserves) and use the result unchanged; R17.2 reserve writer gets requested amount unchanged, priced amount on the other side, direction unchanged/flipped; R17.3 limit table (receive: >= limit, owe: <= limit, zero: untested, rejection only on strict violation); R17.5 engine forwards the caller's limit unchanged on increase, reduce, whole close, full liquidation. Not decided: the pricing arithmetic (C01).",
         design="4/C17"),
+    "C20": dict(
+        technique="MIR stored-value flow + guard facts: each stored Config field that can differ from the loaded one is matched with a validation fact about that same operand; cap comparisons matched with the value actually written",
+        note="Decided: R20.1 every ratio field stored by instantiate/UpdateConfig (engine 4, vAMM 3) was established <= decimals on that path; R20.2 stored maintenance <= stored initial on every path changing either (sequential validation included); R20.3 stored TWAP interval passed (60..=604800), instantiate constant inside; R20.4 AddVamm stores only after engine.decimals == msg.vamm.decimals; R20.5 the open-interest writer compares the value it writes with +cap (or cap==0 / not an increase / whitelisted), the increase reply runs it with a positive amount and checks the holding cap on the stored size. Not decided: open-interest arithmetic; effect of lowering a cap below current usage.",
+        design="4/C20"),
 }
 
 NOT_BUILT = "rules designed in DESIGN.md section 4 but not built yet"
